@@ -248,9 +248,28 @@ def real_headers(rng, names, edges, funcs_only, force_hidden=False, force_shared
             out += ["__begin_publish", "int %s_function(int a);" % names[u]] + ["%s *use_%s(int a);" % (t, t.lower()) for t in used] + ["__end_publish"]
         out.append("#endif")
         files["%s/%s.h" % (names[u], names[u])] = "\n".join(out) + "\n"
-    global LAST_INTENT, LAST_SHARED
+    global LAST_INTENT, LAST_SHARED, LAST_USING
     LAST_INTENT = intent
     LAST_SHARED = shared_intent
+    LAST_USING = set()
+    return files
+
+
+def using_headers(names):
+    """The fixed scenario of the recorded finding "base-named-through-using-declaration": library 1 derives from a class of
+    library 0 that lives in a namespace and is named through a using-declaration."""
+    z, a = names[0], names[1]
+    Z, A = z.capitalize(), a.capitalize()
+    files = {
+        "%s/%s.h" % (z, z): "#ifndef %s_H\n#define %s_H\nnamespace NsU {\nclass %s_NB {\n__published:\n  %s_NB();\n  int get_z() const;\n};\n}\n"
+                            "__begin_publish\nint %s_function(int a);\n__end_publish\n#endif\n" % (Z.upper(), Z.upper(), Z, Z, z),
+        "%s/%s.h" % (a, a): "#ifndef %s_H\n#define %s_H\n#include \"%s.h\"\nusing NsU::%s_NB;\nclass %s_D : public %s_NB {\n__published:\n  %s_D();\n  int d() const;\n};\n"
+                            "__begin_publish\nint %s_function(int a);\n__end_publish\n#endif\n" % (A.upper(), A.upper(), z, Z, A, Z, A, a),
+    }
+    global LAST_INTENT, LAST_SHARED, LAST_USING
+    LAST_INTENT = {(1, 0)}
+    LAST_SHARED = set()
+    LAST_USING = {(1, 0)}
     return files
 
 
@@ -316,6 +335,7 @@ def synth_dbs(rng, names, edges, funcs_only):
 
 LAST_INTENT = set()
 LAST_SHARED = set()
+LAST_USING = set()
 KINDS = ["chain", "dag", "dag", "diamond", "forest", "cycle2", "cycleN", "cycle-out", "sccs", "hidden-chain"]
 
 
@@ -368,6 +388,10 @@ def generate(ctx):
                 perms = [rng.shuffle(range(k)) for _ in range(24 if ctx.tier == "thorough" else 8)]
             plans.append({"id": base + ki * per + j, "variant": variant, "k": k, "graph": kind, "gseed": rng.next(), "perms": [list(p) for p in perms], "fault": None,
                           "funcs_only": [], "enum_only": [], "consts_only": [], "mode": "native", "extra": []})
+    # the scenario of the recorded finding "base-named-through-using-declaration", in every batch whatever the seed
+    rng = run_rng(ctx.seed, NAME + "/using-decl", 0)
+    plans.append({"id": len(plans), "variant": "real", "k": 2, "graph": "fan", "gseed": rng.next(), "perms": [[0, 1], [1, 0]],
+                  "fault": None, "funcs_only": [], "enum_only": [], "consts_only": [], "mode": "native", "extra": [], "force_using": True})
     # the scenario of the recorded finding "typedef-declared-by-two-libraries", in every batch whatever the seed
     rng = run_rng(ctx.seed, NAME + "/shared-typedef", 0)
     plans.append({"id": len(plans), "variant": "real", "k": 3, "graph": "fan", "gseed": rng.next(), "perms": [list(p) for p in itertools.permutations(range(3))],
@@ -498,7 +522,11 @@ def execute(plan):
         for rank, u in enumerate(reversed(order)):
             names[u] = srt[rank]
     if plan["variant"] == "real":
-        files = real_headers(rng, names, edges, funcs_only, force_hidden=(plan["graph"] == "hidden-chain"), force_shared=bool(plan.get("force_shared")))
+        if plan.get("force_using"):
+            files = using_headers(names)
+            edges = {(1, 0)}
+        else:
+            files = real_headers(rng, names, edges, funcs_only, force_hidden=(plan["graph"] == "hidden-chain"), force_shared=bool(plan.get("force_shared")))
         for rel, text in files.items():
             p = os.path.join(root, "src", rel)
             os.makedirs(os.path.dirname(p), exist_ok=True)
@@ -557,6 +585,13 @@ def execute(plan):
             # record would make it blind, so it is checked here
             for (a, b) in sorted(LAST_INTENT):
                 if names[a] in libs and names[b] in libs and (names[a], names[b]) not in medges:
+                    if (a, b) in LAST_USING:
+                        # the parser does not take "using NsU::X;" as introducing the class name X: the derivation is dropped
+                        # with a message and exit status 0 (known finding, DESIGN.md 13a)
+                        violations.append({"property": "C16", "class": "edge-not-recorded", "key": {"kind": "base-named-through-using-declaration"},
+                                           "msg": "%s derives from a class of %s that it names through a using-declaration; interrogate dropped the derivation (model edges %s)" %
+                                                  (names[a], names[b], sorted(medges))})
+                        continue
                     if (a, b) in LAST_SHARED:
                         # two libraries declare the same typedef: merged by true name, one record, one owner -- the other
                         # library's dependency is no longer visible to interrogate_module (known finding, DESIGN.md 13a)
